@@ -25,6 +25,9 @@ def run(ctx, chk):
     DR.stateless(chk, "C09.stateless", prog, eff)
     n = DR.size_only_feeds_claims(chk, "C09.prefix", prog)
     chk.floor("C09.prefix", "uses of source_size", n, 20)
-    n = DR.per_byte(chk, "C09", prog, eff, {"read", "nedata", "nedata-wrap", "claim", "claim-before-read"})
+    chk.rule("C09.action", "the event delivered for each head is the RFC 8949 tokenisation's: callback kind, argument width / loader / "
+                           "bias and constants agree with the reference for all 256 initial bytes (shared with C08.action)")
+    chk.rule("C09.payload", "string payload window is source+head .. +length")
+    n = DR.per_byte(chk, "C09", prog, eff, {"read", "nedata", "nedata-wrap", "claim", "claim-before-read", "action", "payload"})
     chk.floor("C09.read", "per-byte obligations", n, 900)
     chk.exhaustive = True
